@@ -13,15 +13,15 @@
 (*                                                           verify_weak_signature_stormlib)       *)
 (* One corruption is applied; then every detector runs, as the harness does.  Property:            *)
 (*      Protected(cfg, region)  =>  Detected \/ ContentsUnchanged                                  *)
-(* AsCoded = FALSE, GateHole = FALSE is the intended coverage map -- and, with 48c5310 (sector     *)
-(* checksums compared), 5c764f6 (undecodable sector = error) and the proposed                      *)
-(* fixes/C10-standard-crc-layout-second-indicator.patch, also the code's.                          *)
+(* AsCoded = FALSE, GateHole = FALSE is the intended coverage map and, since 48c5310 (sector        *)
+(* checksums compared), 5c764f6 (undecodable sector = error), 7734a50 (standard checksum layout)   *)
+(* and da9094c (second layout indicator), also the code's: intended = as coded.                    *)
 (* Named deviations kept as refuted / predicted history:                                           *)
 (*   AsCoded = TRUE   the code before 48c5310 / 5c764f6:                                           *)
 (*     D1 (F-C10-a)  read_sectored_file read the per-sector checksums but never compared them      *)
 (*     D2 (F-C01-c)  a sector that failed to decompress was replaced by zeros, Ok                  *)
 (*     PredictedGap = multi-sector file data, sector CRCs on, nothing else covering it             *)
-(*   GateHole = TRUE  the code at 7734a50 (standard checksum layout): whether the checksums are    *)
+(*   GateHole = TRUE  the code at 7734a50, before da9094c: whether the checksums are               *)
 (*     looked at at all is decided from the sector offset table alone (first offset = (n+2)*4, and *)
 (*     a checksum sector that does not fit is skipped): an altered offset table can switch the     *)
 (*     verification of its own file off.  PredictedGateGap = the offset table of such a file.      *)
